@@ -246,3 +246,53 @@ Example parse_examples :
   parse_predicates (lit ">=1,") = None /\ parse_predicates (lit ">=1 0") = None /\
   parse_predicates (lit "~=1") = None /\ parse_predicates (10 :: lit ">=1" ++ [10]) = Some [(OpGe, lit "1")].
 Proof. vm_compute. repeat split. Qed.
+
+(* is_compatible on strings *)
+Section CompatStr.
+  Variable V : Type.
+  Variable vparse : str -> option V.
+  Variable vle : V -> V -> bool.
+  Variable major : V -> Z.
+  Theorem is_compatible_str_spec req cur sm :
+    ((vparse req = None \/ vparse cur = None) -> is_compatible_str V vparse vle major req cur sm = Exn ValueError) /\
+    (forall r c, vparse req = Some r -> vparse cur = Some c ->
+       exists b, is_compatible_str V vparse vle major req cur sm = Ok b /\
+                 (b = true <-> (vle r c = true /\ (sm = true -> major r = major c)))).
+  Proof.
+    unfold is_compatible_str. split.
+    - intros [->| ->]; [reflexivity|]. destruct (vparse req); reflexivity.
+    - intros r c -> ->. eexists. split; [reflexivity|]. apply is_compatible_spec.
+  Qed.
+End CompatStr.
+
+(* instances of the hypotheses (non-vacuity) *)
+Example wf_example :
+  Forall2 wf_cmp [ {| c_lead := lit " "; c_op := lit ">="; c_mid := lit " "; c_ver := lit "1.0"; c_trail := [] |};
+                   {| c_lead := []; c_op := lit "<"; c_mid := []; c_ver := lit "2"; c_trail := [10] |} ] [OpGe; OpLt].
+Proof.
+  constructor; [|constructor; [|constructor]]; unfold wf_cmp; cbn [c_lead c_op c_mid c_ver c_trail].
+  - repeat split; try (vm_compute; reflexivity); try discriminate.
+    + unfold comp_map. cbn. auto 10.
+    + vm_compute. intuition discriminate.
+    + left. discriminate.
+  - repeat split; try (vm_compute; reflexivity); try discriminate.
+    + unfold comp_map. cbn. auto 10.
+    + vm_compute. intuition discriminate.
+    + right. vm_compute. discriminate.
+Qed.
+
+Example reject_empty_ver_instance : psplit (lit " == ") = None.
+Proof.
+  apply (reject_empty_ver (lit " ") (lit "==") (lit " ")); try (vm_compute; reflexivity).
+  - rewrite pred_ops_val. cbn. auto 10.
+  - intros x Hx. rewrite pred_ops_val in Hx. cbn [In] in Hx.
+    destruct Hx as [<-|[<-|[<-|[<-|[<-|[<-|[]]]]]]]; vm_compute; intros; congruence.
+Qed.
+
+Example reject_inner_blank_instance : psplit (lit ">=1 0") = None.
+Proof.
+  apply (reject_inner_blank [] (lit ">=") [] (lit "1") (lit " ") (lit "0") []); try (vm_compute; reflexivity); try discriminate.
+  - rewrite pred_ops_val. cbn. auto 10.
+  - intros x Hx. rewrite pred_ops_val in Hx. cbn [In] in Hx.
+    destruct Hx as [<-|[<-|[<-|[<-|[<-|[<-|[]]]]]]]; vm_compute; intros; try discriminate; lia.
+Qed.
